@@ -374,6 +374,10 @@ def check_modes(ctx):
             ok_none = t == greedy + '[0]'
         elif any(c in INT and pol for c, pol in conds):
             ok_int = pat.fullmatch(comp_var.sub('[self._greedy_order(True)for_inrange(', t)) is not None
+            if not ok_int:
+                rb = running_best(fi, p)
+                if rb is not None:
+                    ok_int = rb
         else:
             ok_given = t == p
     undecided_modes = None
@@ -400,6 +404,40 @@ def check_modes(ctx):
            construct='recorded elimination order')
     if undecided_modes is not None:
         raise AnalysisError('_make_tree: ' + undecided_modes)
+
+
+def running_best(fi, p):
+    """the integer mode written as a running best:
+           best = self._greedy_order(False);  for _ in range(p): cand = self._greedy_order(True[, best[1]]);  if cand[1] < best[1]: best = cand;  order = best[0]
+    the cheapest of the deterministic order and p randomised ones (what `min(.., key=cost)` selects; a third argument only lets a candidate give up
+    early, which C11 judges).  -> True / False (a wrong comparison) / None (not this shape)"""
+    from ..engines.blockeval import T
+    for lp in [n for n in ast.walk(fi.node) if isinstance(n, ast.For)]:
+        if T(lp.iter) != 'range(%s)' % p:
+            continue
+        cands = [a for a in lp.body if isinstance(a, ast.Assign) and len(a.targets) == 1 and isinstance(a.targets[0], ast.Name) and isinstance(a.value, ast.Call)
+                 and U(a.value.func) == 'self._greedy_order' and a.value.args and T(a.value.args[0]) == 'True']
+        tests = [i_ for i_ in lp.body if isinstance(i_, ast.If) and not i_.orelse and len(i_.body) == 1 and isinstance(i_.body[0], ast.Assign)]
+        if len(cands) != 1 or len(tests) != 1 or len(lp.body) != 2:
+            continue
+        cand = cands[0].targets[0].id
+        upd = tests[0].body[0]
+        if not (len(upd.targets) == 1 and isinstance(upd.targets[0], ast.Name) and T(upd.value) == cand):
+            continue
+        best = upd.targets[0].id
+        inits = [a for a in ast.walk(fi.node) if isinstance(a, ast.Assign) and len(a.targets) == 1 and T(a.targets[0]) == best and a is not upd]
+        if len(inits) != 1 or T(inits[0].value) != 'self._greedy_order(False)':
+            continue
+        uses = [a for a in ast.walk(fi.node) if isinstance(a, ast.Assign) and T(a.value) == best + '[0]']
+        if not uses:
+            continue
+        t = T(tests[0].test)
+        if t in ('%s[1]<%s[1]' % (cand, best), '%s[1]>%s[1]' % (best, cand), '%s[1]<=%s[1]' % (cand, best), '%s[1]>=%s[1]' % (best, cand)):
+            return True
+        if t in ('%s[1]>%s[1]' % (cand, best), '%s[1]<%s[1]' % (best, cand), '%s[1]>=%s[1]' % (cand, best), '%s[1]<=%s[1]' % (best, cand)):
+            return False
+        return None
+    return None
 
 
 def walk_function(fi):
